@@ -41,7 +41,8 @@ def nonvacuous(ctx, module, devs, cfgfn):
             raise vlib.ToolError("deviation %s does not violate %s in the model (got %s): vacuous invariant" % (dev, inv, r["violated"]))
 
 
-def run_family(ctx, module, build, cats, cfgfn, modes_quick, modes_thorough, devs, assumptions, rule):
+def run_family(ctx, module, build, cats, cfgfn, modes_quick, modes_thorough, devs, assumptions, rule, describe=None, cfgs=(None,),
+               cov_mode="seq2"):
     if ctx.replay:
         return progcheck.replay_file(ctx, ctx.replay)
     thorough = ctx.tier == "thorough"
@@ -50,24 +51,26 @@ def run_family(ctx, module, build, cats, cfgfn, modes_quick, modes_thorough, dev
     total = 0
     real_items = []
     for mode, k in (modes_thorough if thorough else modes_quick):
-        scs, r = progcheck.tlc_scenarios(ctx, module, cfgfn(mode), "%s_%s" % (ctx.pid.lower(), mode), coverage=(mode == "seq2"))
+        scs, r = progcheck.tlc_scenarios(ctx, module, cfgfn(mode), "%s_%s" % (ctx.pid.lower(), mode), coverage=(mode == cov_mode))
         total += len(scs)
         pick = progcheck.sample(scs, k, ctx.seed)
         items = []
         for i, sc in enumerate(pick):
             prog, exp, _tags = build(sc, "%s_%s_%d" % (ctx.pid, mode, i))
             items.append((prog, exp, {k2: sc[k2] for k2 in ("ann", "pkg", "files")}))
-        for lo in range(0, len(items), 20000):
-            rep.check(items[lo:lo + 20000])
+        for c in cfgs:
+            for lo in range(0, len(items), 20000):
+                rep.check(items[lo:lo + 20000], cfg=c)
         real_items += progcheck.sample(items, 400 if thorough else 40, ctx.seed + 7)
     for lab, cov in ctx.coverage.items():
         zero = [a for a, n in cov.items() if n == 0 and not a.endswith("Finished")]
         if zero:
             raise vlib.ToolError("vacuous actions in %s: %s" % (lab, zero))
-    rep.settle(describe=describe)
+    rep.settle(describe=describe or _describe)
     nreal = 0
     if not ctx.violations:
-        nreal = progcheck.real_drivers(ctx, real_items, cats, rep)
+        for c in cfgs:
+            nreal += progcheck.real_drivers(ctx, real_items, cats, rep, cfg=c)
     return ctx.finish("model_checking", {
         "traces_validated_against_impl": rep.run + nreal,
         "samples": rep.samples,
